@@ -142,11 +142,13 @@ PROPS["C08"] = dict(
 PROPS["C09"] = dict(
     functions=["revm::handler::mainnet::last_frame_return::<SPEC, (), EmptyDB> (crates/revm/src/handler/mainnet/execution.rs) on a real Context",
                "revm::handler::mainnet::refund::<LondonSpec|BerlinSpec> (post_execution.rs) incl. Gas::set_final_refund",
-               "the EIP-7623 floor step of Evm::transact_preverified_inner (crates/revm/src/evm.rs): structure from MIR, arithmetic by SMT"],
+               "the EIP-7623 floor step of Evm::transact_preverified_inner (crates/revm/src/evm.rs): structure from MIR, arithmetic by SMT",
+               "revm::handler::mainnet::reward_beneficiary: reaching definitions of the per-gas price paid to the beneficiary (MIR data flow)"],
     bounds="all u64 tx gas limits, first-frame limits/spent (spent <= frame limit <= tx limit), all non-negative i64 refunds (< 2^60 in refund_cap), 8 result classes "
            "(3 success, revert, 4 halts), London / pre-London; floor step: all 0 <= used <= limit, 0 <= floor <= limit",
-    outside="intrinsic gas <= gas used at transaction level; the sender paying exactly price x used + blob fee and the beneficiary receiving (price - basefee) x used "
-            "(reimburse_caller / reward_beneficiary go through the journal's hash maps: not encodable, DESIGN §2); exact-intrinsic runs",
+    outside="intrinsic gas <= gas used at transaction level; the exact amounts paid: the sender paying price x used + blob fee and the beneficiary receiving "
+            "(price - basefee) x used (reimburse_caller / reward_beneficiary go through the journal's hash maps: a Kani harness on a real Context did not get through "
+            "hashbrown in 40 min) - only WHICH price reaches the beneficiary payment and that the caller is credited on every path (C08) are decided; exact-intrinsic runs",
     assumptions=["std::hash::RandomState::new stubbed with fixed keys (the Context's empty maps are never hashed into)",
                  "frame accounting: first frame limit <= tx gas limit, spent <= limit, refund >= 0", "floor <= gas limit (guaranteed by validate_initial_tx_gas, C02)",
                  "Gas method semantics as decided under C13", "Kani/CBMC/CaDiCaL, z3, cvc5 trusted"],
@@ -154,7 +156,8 @@ PROPS["C09"] = dict(
                H("c09::c09_refund_cap", bounds="all spent/limits, refunds < 2^60, London and Berlin", stubs_expected=["RandomState"]),
                H("c09::c09_floor_step", bounds="all u64 values with floor <= limit, refund <= spent/2"),
                H("c09::c09_twin_must_fail", expect_fail=True, bounds="vacuity twin")],
-    jobs=[dict(name="e3::floor_step_structure", fn=jobs_e3.run_floor_step)],
+    jobs=[dict(name="e3::floor_step_structure", fn=jobs_e3.run_floor_step),
+          dict(name="e3::beneficiary_price_dataflow", fn=jobs_e3.run_fee_prices)],
 )
 
 # --------------------------------------------------------------------------- C10
